@@ -273,7 +273,8 @@ def jobs(tier, seed):
     P, Pn, C = {'type': 'proc', 'catch': True}, {'type': 'proc', 'catch': False}, {'type': 'cb', 'catch': True}
     wsets = [[], [P], [Pn], [C], [P, P], [P, C], [C, P], [P, Pn], [Pn, P], [C, C], [P, C, P]]
     if tier != 'quick':
-        wsets += [[P, P, P], [C, Pn, P], [P, C, Pn, C], [Pn, Pn], [C, P, C, P], [P, P, P, P], [P, Pn, C, P, C]]
+        wsets += [[P, P, P], [C, Pn, P], [P, C, Pn, C], [Pn, Pn], [C, P, C, P], [P, P, P, P], [P, Pn, C, P, C],
+                  [P, P, C, P, P], [C, P, Pn, P, C], [Pn, C, C, P, P], [C, C, C, P]]
     for target in ('succeed', 'fail', 'child-return', 'child-raise'):
         for wi, ws in enumerate(wsets):
             sorts = ('int', 'real', 'mixed')[wi % 3]
@@ -290,6 +291,11 @@ def jobs(tier, seed):
                 # second attempt in the same step as the first trigger (triggered, not yet processed)
                 js.append({'harness': 'event', 'weight': 8,
                            'cfg': {'target': target, 'waiters': [P, C], 'sorts': 'int', 'second': sec, 'second_when': 'same-step'}})
+                if tier != 'quick':
+                    for ws in ([P, Pn, C], [C, P, P]):
+                        for when in ('same-step', 'later'):
+                            js.append({'harness': 'event', 'weight': 60,
+                                       'cfg': {'target': target, 'waiters': ws, 'sorts': 'mixed', 'second': sec, 'second_when': when}})
     for kinds in (['timeout'], ['timeout', 'timeout'], ['event', 'timeout'], ['timeout', 'event', 'timeout']):
         js.append({'harness': 'chain', 'weight': 10, 'cfg': {'n': len(kinds), 'kinds': kinds, 'sorts': 'int'}})
     return js
@@ -306,7 +312,7 @@ META = {
                         'second-trigger-before-processing'],
     'bounds': {'quick': 'one shared event or child process; <= 3 waiters (processes catching / not catching, plain callbacks) registering at '
                         'symbolic instants; second succeed/fail attempt (before and after the first is processed, and on a pending Timeout); chains of <= 3 already-processed events; values symbolic Int',
-               'thorough': '<= 4 waiters'},
+               'thorough': '<= 5 waiters; double triggers with 3 waiters'},
     'assumptions': ['a plain callback does not handle a failure (only a waiting process does)',
                     'a callback cannot be registered on a processed event (callbacks is None): such registrations are skipped'],
     'stubs': [],
@@ -318,5 +324,5 @@ MANIFEST = {
                   'delivery monitor: for every order-type of trigger and registration instants each waiter receives the outcome '
                   'exactly once, in registration order, with the right value or an exclusive exception copy, and an unhandled '
                   'failure raises at its instant.',
-    'level_note': 'Trusted: z3, symx proxies (validated by concrete witness replay); <= 4 waiters on one event.',
+    'level_note': 'Trusted: z3, symx proxies (validated by concrete witness replay); <= 5 waiters on one event.',
 }
